@@ -7,7 +7,7 @@ export GOFLAGS=-mod=mod GOPROXY=off GOSUMDB=off GOTOOLCHAIN=local
 mkdir -p bin work replays evidence
 ( cd go && [ -f go.sum ] || cp /repo/go.sum go.sum; sh genreg.sh
   go build -o ../bin/extract ./cmd/extract
-  go build -tags verif -o ../bin/corr ./cmd/corr )
+  for d in cmd/corr-*/; do go build -tags verif -o ../bin/$(basename $d) ./$d; done )
 ./bin/extract /repo lean || true
 ( cd lean && lake build DosModel $(ls Drivers/*.lean | sed 's#Drivers/\(.*\)\.lean#drv_\L\1#' | tr '\n' ' ') )
 echo setup done
